@@ -6,4 +6,5 @@ export GOFLAGS=-mod=mod GOPROXY=off GOSUMDB=off GOTOOLCHAIN=local
 mkdir -p bin evidence replays
 (cd gosym && go build -o ../bin/gosym .)
 python3 gen_rt.py
+python3 gen_shapes.py
 echo "gosym built"
